@@ -6,6 +6,7 @@
    below are the parts with content. *)
 From Coq Require Import List ZArith Permutation.
 From UEC Require Import Push.Stack Push.Syntax Push.Spec Push.Run Push.InputOrder Ec.Compose.
+From UEC Require Import Ec.Locality.
 Import ListNotations.
 
 (* named inputs resolve to their values regardless of the order in which they were declared *)
@@ -34,6 +35,36 @@ Theorem C16_and_threads_state : forall (S A B C E1 E2 : Type) (f : op S A B E1) 
   snd (and_ f g x s) = match f x s with (inl _, s1) => snd (g x s1) | (inr _, s1) => s1 end.
 Proof. exact @and_threads_state. Qed.
 Print Assumptions C16_and_threads_state.
+
+(* stream locality: with the generator modelled as (word stream, position), an operator is [local] when its
+   result and the position it leaves depend only on the stretch of the stream it consumed (and it never
+   rewinds or replaces the stream).  Drawing a word is local, and every combinator preserves locality - so
+   every composition, of any nesting depth, built from local parts is local ... *)
+Theorem C16_draw_is_local : forall (W A : Type), local (@draw W A).
+Proof. exact @local_draw. Qed.
+Print Assumptions C16_draw_is_local.
+
+Theorem C16_combinators_preserve_locality :
+  (forall (W A B C E1 E2 : Type) (f : op (@gen W) A B E1) (g : op gen B C E2), local f -> local g -> local (then_ f g)) /\
+  (forall (W A B C E1 E2 : Type) (f : op (@gen W) A B E1) (g : op gen A C E2), local f -> local g -> local (and_ f g)) /\
+  (forall (W A B E : Type) (f : op (@gen W) A B E), local f -> local (map_vec f)) /\
+  (forall (W A B E : Type) (f : op (@gen W) A B E) n, local f -> local (repeat_ n f)) /\
+  (forall (W A B E : Type) (f : op (@gen W) A B E), local f -> local (wrap f)) /\
+  (forall (W A E : Type), local (@identity (@gen W) A E)) /\
+  (forall (W A B E : Type) (v : B), local (@constant (@gen W) A B E v)).
+Proof.
+  exact (conj (@local_then) (conj (@local_and) (conj (@local_map_vec) (conj (@local_repeat) (conj (@local_wrap) (conj (@local_identity) (@local_constant))))))).
+Qed.
+Print Assumptions C16_combinators_preserve_locality.
+
+(* ... and a local operator run from two generators in the same state (equal streams from the current
+   position on) gives the same result and leaves both at the same position, with the stream untouched *)
+Theorem C16_equal_generator_states_equal_results : forall (W A B E : Type) (f : op (@gen W) A B E) x s s' p,
+  local f -> (forall i, p <= i -> s i = s' i) ->
+  fst (f x (s, p)) = fst (f x (s', p)) /\ snd (snd (f x (s, p))) = snd (snd (f x (s', p))) /\
+  fst (snd (f x (s, p))) = s.
+Proof. exact @local_deterministic. Qed.
+Print Assumptions C16_equal_generator_states_equal_results.
 
 Example C16_example :
   let prog := [PI (InputVar 1); PI (InputVar 2); PI (IBin Sub)] in
